@@ -6,6 +6,13 @@ use std::task::{Poll, Waker};
 
 use crate::util::phys::PhysAddr;
 
+static ORDER: std::sync::atomic::AtomicU64 = std::sync::atomic::AtomicU64::new(1);
+
+/// process-wide observation counter: lets the engine order pipe writes relative to callbacks
+pub fn next_order() -> u64 {
+    ORDER.fetch_add(1, std::sync::atomic::Ordering::SeqCst)
+}
+
 #[derive(Default)]
 pub struct PipeState {
     /// chunks queued for the endpoint; one read returns at most one chunk
@@ -18,8 +25,8 @@ pub struct PipeState {
     pub read_error: bool,
     /// every write fails with an I/O error
     pub write_error: bool,
-    /// everything the endpoint wrote, one entry per write call
-    pub tx: Vec<Vec<u8>>,
+    /// everything the endpoint wrote, one entry per write call, with its observation order
+    pub tx: Vec<(u64, Vec<u8>)>,
     /// number of read calls that returned data
     pub reads: u64,
     /// number of times a read found nothing and parked
@@ -84,7 +91,7 @@ impl PipeHandle {
     }
 
     /// take everything written so far
-    pub fn take_tx(&self) -> Vec<Vec<u8>> {
+    pub fn take_tx(&self) -> Vec<(u64, Vec<u8>)> {
         std::mem::take(&mut self.0.lock().unwrap().tx)
     }
 
@@ -147,7 +154,7 @@ impl Pipe {
                 "verif: injected write error",
             ));
         }
-        s.tx.push(data.to_vec());
+        s.tx.push((next_order(), data.to_vec()));
         Ok(())
     }
 }
